@@ -99,7 +99,7 @@ func VerifC13Dispose() {
 // VerifC04Nested: a mutation issued from inside a handler is queued, runs after the current
 // transition in queue-tick order, and its WhenQueue channel closes once it has been processed.
 func VerifC04Nested() {
-	s := verifNewScn(2, false, true, false, true, true, true)
+	s := verifNewScn(2, false, true, false, true, true, vParam("vetos", 1) == 1)
 	s.inject(false)
 	m := s.m
 	// which handler issues the nested mutation
